@@ -4,38 +4,17 @@ Local Open Scope Z_scope.
 
 (* ---------------------------------------------------------------- wrap_value *)
 
-(* wrap_value is the two's complement reduction only for |v| <= 2^bits (it was written to
-   reinterpret a value of the unsigned counterpart, or one borrow below zero) *)
-Lemma wrap_value_one_wrap t v : wf_ity t -> - tmod t <= v <= tmod t ->
-  wrap_value t v = wrap t v.
+(* IntegralType:wrap_value (as repaired by 59c538f) is the two's complement reduction, for every
+   integer *)
+Lemma wrap_value_correct t v : wf_ity t -> wrap_value t v = wrap t v.
 Proof.
   intros Ht. unfold wrap_value, bwrap.
-  ity_cases t Ht; ity_norm; intros Hv;
+  ity_cases t Ht; ity_norm;
     repeat match goal with |- context [if ?c then _ else _] => destruct c eqn:? end; lia.
 Qed.
 
-(* for unsigned types it is always correct *)
-Lemma wrap_value_unsigned t v : wf_ity t -> sgn t = false -> wrap_value t v = wrap t v.
-Proof.
-  intros Ht Hs. unfold wrap_value, bwrap. rewrite Hs. cbn [andb].
-  destruct (in_rangeb t v) eqn:R.
-  - apply in_rangeb_spec in R. symmetry. apply wrap_id; assumption.
-  - rewrite wrap_unsigned by exact Hs. rewrite tmod_eq by exact Ht. reflexivity.
-Qed.
-
-(* in every case the result is congruent to the value modulo 2^bits (so a second application,
-   or C's own conversion of the literal, lands on the right value) *)
-Lemma wrap_value_congruent t v : wf_ity t -> wrap t (wrap_value t v) = wrap t v.
-Proof.
-  intros Ht. apply wrap_eqm; [exact Ht|]. unfold wrap_value, bwrap. rewrite <- tmod_eq by exact Ht.
-  pose proof (tmod_pos t Ht) as Hp.
-  destruct (in_rangeb t v); [reflexivity|].
-  destruct (sgn t && (tmax t <? v)).
-  - generalize (tmod t) Hp. intros M HM.
-    replace (- (- v mod M)) with (0 - (- v mod M)) by lia.
-    rewrite Zminus_mod_idemp_r. f_equal. lia.
-  - apply Z.mod_mod. lia.
-Qed.
+Lemma wrap_value_range t v : wf_ity t -> in_range t (wrap_value t v).
+Proof. intros Ht. rewrite wrap_value_correct by exact Ht. apply wrap_range; exact Ht. Qed.
 
 (* ---------------------------------------------------------------- run-time side: + - * *)
 
@@ -82,45 +61,32 @@ Qed.
 
 (* ---------------------------------------------------------------- the property, full strength *)
 
-(* result of folding `a o b` on typed constants agrees with the run time (see Properties.v) *)
+(* folding `a o b` on typed constants representable in the run-time result type T agrees with the
+   run time: the constant expression is rejected only where the run time is undefined; otherwise
+   the folded value lies inside its type, is the exact result when T can represent it, and else
+   is the exact result carried by a wider/signed type or bakes what the run time computes *)
 Definition fold_agrees_at (o : binop) (lt rt : ity) (a b : Z) : Prop :=
   let T := rt_type o lt rt in
   forall e, exact_bin o lt a b = Some e -> in_range T a -> in_range T b ->
-  exists t' v, fold_bin o lt rt a b false false = Fval t' v /\ in_range t' v /\
-    (in_range T e -> baked t' v = e) /\
-    (~ in_range T e -> v = e \/ rt_bin o lt rt a b = Rval T (baked t' v)).
+  match fold_bin o lt rt a b false false with
+  | Ferr _ => rt_bin o lt rt a b = Rundef
+  | Fbool _ => False
+  | Fval t' v =>
+      in_range t' v /\
+      (in_range T e -> baked t' v = e) /\
+      (~ in_range T e -> v = e \/ rt_bin o lt rt a b = Rval T (baked t' v))
+  end.
 
 Definition fold_agrees : Prop :=
   forall o lt rt a b, wf_ity lt -> wf_ity rt -> is_cmpop o = false ->
     in_range lt a -> in_range rt b -> fold_agrees_at o lt rt a b.
 
-(* witness 1: 9223372036854775807 * 3 folds to a value outside its own type *)
-Lemma fold_agrees_refuted_mul : ~ fold_agrees_at Bmul I64 I64 9223372036854775807 3.
-Proof.
-  intros H. destruct (H _ eq_refl) as (t' & v & Hf & Hr & _); try (vm_compute; split; congruence).
-  vm_compute in Hf. injection Hf as <- <-. vm_compute in Hr. destruct Hr as [Hr _]. apply Hr. reflexivity.
-Qed.
-
-(* witness 2: 77_i8 << 2 folds to (int16, -204): neither 308 nor the run-time 52 *)
-Lemma fold_agrees_refuted_shl : ~ fold_agrees_at Bshl I8 I8 77 2.
-Proof.
-  intros H. destruct (H _ eq_refl) as (t' & v & Hf & Hr & _ & Hn); try (vm_compute; split; congruence).
-  vm_compute in Hf. injection Hf as <- <-.
-  destruct Hn as [Hn | Hn].
-  - vm_compute. intros [_ Hc]. apply Hc. reflexivity.
-  - vm_compute in Hn. discriminate.
-  - vm_compute in Hn. discriminate.
-Qed.
-
-Lemma fold_agrees_refuted : ~ fold_agrees.
-Proof.
-  intros H. apply fold_agrees_refuted_mul. apply H; try reflexivity; vm_compute; split; congruence.
-Qed.
-
-(* the run-time shift helper narrows the count to the left operand's type *)
-Lemma rt_shift_count_narrowed :
-  rt_bin Bshl I8 I32 1 257 = Rval I8 2 /\ fold_bin Bshl I8 I32 1 257 false false = Fval I8 0 /\
-  exact_bin Bshl I8 1 257 = Some 0.
+(* what is still false at run time after 2cffa35: a uint64 count >= 2^63 becomes negative in the
+   helper (its count parameter is int64) *)
+Lemma rt_shift_uint64_count :
+  rt_bin Bshl U64 U64 82 18446744073709551615 = Rval U64 41 /\
+  fold_bin Bshl U64 U64 82 18446744073709551615 false false = Fval U64 0 /\
+  exact_bin Bshl U64 82 18446744073709551615 = Some 0.
 Proof. repeat split. Qed.
 
 (* ---------------------------------------------------------------- fold side: exactness *)
@@ -179,24 +145,89 @@ Example ex_rt_sub : rt_bin Bsub U8 U8 3 5 = Rval U8 254. Proof. reflexivity. Qed
 Example ex_fold_idiv : fold_bin Bidiv I8 I8 (-128) (-1) false false = Fval I16 128. Proof. reflexivity. Qed.
 Example ex_conv : conv_accepts I8 128 = false /\ conv_accepts I8 127 = true. Proof. split; reflexivity. Qed.
 Example ex_baked : baked I64 (-9223372036854775811) = 9223372036854775805. Proof. reflexivity. Qed.
+Example ex_fold_mul : fold_bin Bmul I64 I64 9223372036854775807 3 false false = Fval I64 9223372036854775805. Proof. reflexivity. Qed.
+Example ex_fold_shl : fold_bin Bshl I8 I8 77 2 false false = Fval I8 52 /\ fold_bin Bshl I8 I8 (-1) (-8) false false = Fval I8 0.
+Proof. split; reflexivity. Qed.
+Example ex_fold_tdiv : fold_bin Btdiv I8 I8 (-128) (-1) false false = Fval I16 128 /\
+  fold_bin Btdiv I64 I64 (-9223372036854775808) (-1) false false = Ferr ERR_DIVOVERFLOW /\
+  rt_bin Btdiv I64 I64 (-9223372036854775808) (-1) = Rundef.
+Proof. repeat split. Qed.
 
+
+(* ---------------------------------------------------------------- fold_agrees for + - * *)
+
+Lemma baked_correct t v : wf_ity t -> baked t v = wrap t v.
+Proof.
+  intros Ht. unfold baked.
+  destruct ((negb (sgn t) && (v <? 0)) || negb (in_rangeb t v)) eqn:C.
+  - apply wrap_value_correct; exact Ht.
+  - apply orb_false_elim in C. destruct C as [_ C]. apply negb_false_iff in C.
+    apply in_rangeb_spec in C. symmetry. apply wrap_id; assumption.
+Qed.
+
+(* the value-level core: for a result X of an operation on operands of type T *)
+Definition result_bound (T : ity) (X : Z) : Prop :=
+  if sgn T then - (thalf T * thalf T) <= X <= thalf T * thalf T
+  else - tmod T < X < tmod T * tmod T.
+
+Lemma fold_value_agrees T X : wf_ity T -> result_bound T X ->
+  let t' := promote_type_for_value T X in
+  let v := wrap_value t' X in
+  wf_ity t' /\ in_range t' v /\ (in_range T X -> v = X) /\ (~ in_range T X -> v = X \/ wrap T X = v).
+Proof.
+  intros HT. unfold result_bound, promote_type_for_value, wrap_value, bwrap.
+  ity_cases T HT; cbv [promote_signed_types promote_unsigned_types first_fit]; ity_norm; intros HX;
+    repeat match goal with |- context [if ?c then _ else _] => destruct c eqn:? end;
+    ity_norm; repeat split; try reflexivity; try lia; try (intros; lia); try (intros; left; lia); try (intros; right; lia).
+Qed.
+
+Lemma arith_result_bound o T a b e : wf_ity T -> (o = Badd \/ o = Bsub \/ o = Bmul) ->
+  in_range T a -> in_range T b -> exact_bin o T a b = Some e -> result_bound T e.
+Proof.
+  intros HT Ho Ha Hb He. unfold result_bound.
+  destruct Ho as [-> | [-> | ->]]; cbn [exact_bin] in He; injection He as <-;
+    revert Ha Hb; ity_cases T HT; ity_norm; intros Ha Hb; nia.
+Qed.
+
+Lemma fold_agrees_arith o lt rt a b : wf_ity lt -> wf_ity rt -> (o = Badd \/ o = Bsub \/ o = Bmul) ->
+  fold_agrees_at o lt rt a b.
+Proof.
+  intros Hl Hr Ho. unfold fold_agrees_at. intros e He Ha Hb.
+  assert (HT : rt_type o lt rt = promote_type lt rt) by (destruct Ho as [-> | [-> | ->]]; reflexivity).
+  rewrite HT in *.
+  assert (Hw : wf_ity (promote_type lt rt)) by (ity_cases lt Hl; ity_cases rt Hr; reflexivity).
+  set (T := promote_type lt rt) in *.
+  assert (He' : exact_bin o T a b = Some e) by (destruct Ho as [-> | [-> | ->]]; exact He).
+  pose proof (arith_result_bound o T a b e Hw Ho Ha Hb He') as HB.
+  destruct (fold_value_agrees T e Hw HB) as (Hwt & Hin & Hex & Hnx).
+  assert (Hf : fold_bin o lt rt a b false false =
+               Fval (promote_type_for_value T e) (wrap_value (promote_type_for_value T e) e)).
+  { destruct Ho as [-> | [-> | ->]]; cbn [exact_bin] in He; injection He as <-; reflexivity. }
+  assert (Hrt : rt_bin o lt rt a b = Rval T (wrap T e)).
+  { destruct Ho as [-> | [-> | ->]]; cbn [exact_bin] in He; injection He as <-;
+      [apply rt_add_modular | apply rt_sub_modular | apply rt_mul_modular]; assumption. }
+  rewrite Hf. split; [exact Hin|]. rewrite baked_correct by exact Hwt.
+  rewrite wrap_id by assumption. split.
+  - exact Hex.
+  - intros Hn. destruct (Hnx Hn) as [E | E]; [left; exact E | right; rewrite Hrt, E; reflexivity].
+Qed.
 (* ---------------------------------------------------------------- run-time side: shifts, comparisons *)
 
-Lemma rt_shl_partial lt rt a b : wf_ity lt -> in_range lt a -> in_range (to_signed lt) b ->
+Lemma rt_shl_partial lt rt a b : wf_ity lt -> in_range lt a -> in_range I64 b ->
   rt_bin Bshl lt rt a b = Rval lt (wrap lt (exact_shl lt a b)).
 Proof.
   intros Hl Ha Hb. unfold rt_bin, of_call. change (rt_type Bshl lt rt) with lt.
   destruct (shift_tables_complete lt Hl) as ((f & Hf) & _). rewrite Hf.
   rewrite (shl_helper_correct lt f a b (lookup1_in _ _ _ Hf) Ha Hb). reflexivity.
 Qed.
-Lemma rt_shr_partial lt rt a b : wf_ity lt -> in_range lt a -> in_range (to_signed lt) b ->
+Lemma rt_shr_partial lt rt a b : wf_ity lt -> in_range lt a -> in_range I64 b ->
   rt_bin Bshr lt rt a b = Rval lt (wrap lt (exact_shr lt a b)).
 Proof.
   intros Hl Ha Hb. unfold rt_bin, of_call. change (rt_type Bshr lt rt) with lt.
   destruct (shift_tables_complete lt Hl) as (_ & (f & Hf) & _). rewrite Hf.
   rewrite (shr_helper_correct lt f a b (lookup1_in _ _ _ Hf) Hl Ha Hb). reflexivity.
 Qed.
-Lemma rt_asr_partial lt rt a b : wf_ity lt -> in_range lt a -> in_range (to_signed lt) b ->
+Lemma rt_asr_partial lt rt a b : wf_ity lt -> in_range lt a -> in_range I64 b ->
   rt_bin Basr lt rt a b = Rval lt (wrap lt (exact_asr lt a b)).
 Proof.
   intros Hl Ha Hb. unfold rt_bin, of_call. change (rt_type Basr lt rt) with lt.
@@ -255,31 +286,11 @@ Lemma fold_cmp_exact o lt rt a b lu ru : is_cmpop o = true ->
   fold_bin o lt rt a b lu ru = Fbool (cmp_value o a b).
 Proof. intros Ho. unfold fold_bin. rewrite Ho. reflexivity. Qed.
 
-(* ---------------------------------------------------------------- wrap_value / literal / conversion *)
-
-Lemma wrap_value_refuted : exists t v, wf_ity t /\ wrap_value t v <> wrap t v /\ ~ in_range t (wrap_value t v).
-Proof.
-  exists I64, (9223372036854775807 * 3). repeat split; vm_compute; try congruence. intros [H _]. apply H. reflexivity.
-Qed.
-
-(* what ends up in the C code for an out-of-range constant is right whenever |v| <= 2^bits *)
-Lemma baked_one_wrap t v : wf_ity t -> - tmod t <= v <= tmod t -> baked t v = wrap t v.
-Proof.
-  intros Ht Hv. unfold baked.
-  destruct ((negb (sgn t) && (v <? 0)) || negb (in_rangeb t v)) eqn:C.
-  - apply wrap_value_one_wrap; assumption.
-  - apply orb_false_elim in C. destruct C as [_ C]. apply negb_false_iff in C.
-    apply in_rangeb_spec in C. symmetry. apply wrap_id; assumption.
-Qed.
+(* ---------------------------------------------------------------- literal / conversion *)
 
 Lemma baked_congruent t v : wf_ity t -> wrap t (baked t v) = wrap t v.
-Proof.
-  intros Ht. unfold baked. destruct ((negb (sgn t) && (v <? 0)) || negb (in_rangeb t v)); [|reflexivity].
-  apply wrap_value_congruent; exact Ht.
-Qed.
+Proof. intros Ht. rewrite baked_correct by exact Ht. apply wrap_idem; exact Ht. Qed.
 
-(* constant conversion is accepted exactly for the values the destination can represent - the
-   very condition under which the run-time check of C04 (nelua_assert_narrow_) does not fire *)
 Lemma conv_rejected_iff d v : conv_accepts d v = false <-> ~ in_range d v.
 Proof. unfold conv_accepts. apply in_rangeb_false. Qed.
 
